@@ -130,7 +130,8 @@ def build_cm(cfg):
     import odxtools.request  # noqa
     import odxtools.isotp_state_machine  # noqa
     from odxtools.odxtypes import DataType
-    return {"cm": build.compu_method(cfg["cm"], DataType(cfg["it"]), DataType(cfg["pt"]))}
+    fn = build.compu_method_from_xml if cfg.get("via_xml") else build.compu_method
+    return {"cm": fn(cfg["cm"], DataType(cfg["it"]), DataType(cfg["pt"]))}
 
 
 def _seg_of(cm_spec, x):
@@ -402,6 +403,8 @@ def run_roundtrip(sx, cfg, env):
         sx.fail("image-converts-back")
         return
     sx.observe("x2", x2)
+    if cfg["it"] in INTS:
+        sx.require(isinstance(x2, int), "integer-internal-type-yields-int")
     sx.require(x2 == x, "internal-physical-internal-is-identity")
 
 
@@ -523,6 +526,9 @@ def methods(tier):
         # continuous and strictly increasing, but the two formulas differ by one ulp at the
         # breakpoint in binary64 (0.2 * 64 vs -32 + 0.7 * 64)
         "cont-noisy": [_lin(0, 0.2, 1, -100, 64), _lin(-32, 0.7, 1, 64, 100, "OPEN")],
+        # the outer scales are unbounded
+        "cont-unbounded": [_lin(0, 1, 1, None, 0), _lin(0, 2, 1, 0, 50, "OPEN"),
+                           _lin(50, 1, 1, 50, None, "OPEN")],
     }
     for name, scales in sl.items():
         for it_, pt_ in (("A_INT32", "A_INT32"), ("A_INT32", "A_FLOAT64")):
@@ -554,6 +560,13 @@ def methods(tier):
           "scales": [{"num": [0, 1], "den": [2], "lo": 0, "hi": 10},
                      {"num": [1, 0, 1], "den": [1], "lo": {"v": 10, "it": "OPEN"}, "hi": 40}]}
     out.append(("SCALE-RAT-FUNC", "A_INT32", "A_FLOAT64", cm, "two"))
+    # with an explicit COMPU-PHYS-TO-INTERNAL: integer internal type, float physical type
+    cm = {"cat": "SCALE-RAT-FUNC",
+          "scales": [{"num": [0, 1], "den": [2], "lo": 0, "hi": 10},
+                     {"num": [-25, 3], "den": [1], "lo": {"v": 10, "it": "OPEN"}, "hi": 40}],
+          "inv_scales": [{"num": [0, 2], "den": [1], "lo": 0, "hi": 5},
+                         {"num": [25, 1], "den": [3], "lo": {"v": 5, "it": "OPEN"}, "hi": 95}]}
+    out.append(("SCALE-RAT-FUNC", "A_INT32", "A_FLOAT64", cm, "two-inv"))
     # TEXTTABLE
     tt = {"cat": "TEXTTABLE", "scales": [
         {"lo": 0, "hi": 0, "const": "off"}, {"lo": 1, "hi": 10, "const": "low"},
@@ -597,16 +610,37 @@ def configs(tier, seed):
         if cat == "SCALE-LINEAR" and name in vr and pt_ in INTS:
             out.append(dict(base, harness="inverse", bits=9, valid_range=vr[name],
                             id=f"inverse/{cat}/{it_}-{pt_}/{name}"))
-        if cat == "RAT-FUNC" and "inv_scales" in cm and pt_ in FLOATS:
+        if cat in ("RAT-FUNC", "SCALE-RAT-FUNC") and "inv_scales" in cm and pt_ in FLOATS:
             out.append(dict(base, harness="roundtrip", bits=bits,
                             id=f"roundtrip/{cat}/{it_}-{pt_}/{name}"))
-        if cat == "SCALE-LINEAR" and name in ("cont-incr", "cont-decr", "cont-noisy") and pt_ in FLOATS:
+        if cat == "SCALE-LINEAR" and name in ("cont-incr", "cont-decr", "cont-noisy",
+                                              "cont-unbounded") and pt_ in FLOATS:
             # continuous and strictly monotone: injective, every image converts back
             out.append(dict(base, harness="roundtrip", bits=bits,
                             id=f"roundtrip/{cat}/{it_}-{pt_}/{name}"))
         if _injective(cat, it_, pt_, cm) and it_ in INTS:
             out.append(dict(base, harness="roundtrip", bits=bits,
                             id=f"roundtrip/{cat}/{it_}-{pt_}/{name}"))
+    # the same descriptions once more, as ODX text read by odxtools' own parser (limits, interval
+    # types, inverse values, constants and coefficients are then typed by the parser)
+    def _xml_too(c):
+        cat, nm = c["id"].split("/")[1], c["id"].split("/")[-1]
+        if tier != "quick":
+            return True
+        return (cat in ("TEXTTABLE", "SCALE-RAT-FUNC", "IDENTICAL") or "texttable" in c["id"] or
+                (cat == "SCALE-LINEAR" and nm in ("const", "decr-plateau", "plateau-then-decr", "cont-incr",
+                                                  "cont-unbounded")) or
+                (cat == "TAB-INTP" and nm in ("incr", "decr")) or
+                (cat == "RAT-FUNC" and nm in ("cent", "neg", "moebius")) or
+                (cat == "LINEAR" and (nm.startswith("7_3_2_") or nm.endswith("-only"))))
+    def _parsable(c):
+        # the parser types the coefficients by the physical type: fractional coefficients need a
+        # float physical type
+        frac = any(float(x) != int(x) for sc in c["cm"].get("scales", []) + c["cm"].get("inv_scales", [])
+                   for x in list(sc.get("num", [])) + list(sc.get("den", [])))
+        return not (frac and c["pt"] in INTS)
+    for c in [c for c in out if _xml_too(c) and _parsable(c)]:
+        out.append(dict(c, id=c["id"] + "/xml", via_xml=True, build=dict(c["build"], via_xml=True)))
     for vt in ("A_INT32", "A_UINT32", "A_FLOAT64"):
         for itype in (None, "OPEN", "CLOSED", "INFINITE"):
             for value in (None, 0, 7, -3) if vt != "A_UINT32" else (None, 0, 7):
